@@ -203,6 +203,28 @@ def build() -> Check:
     ck.floor("release_paths", len(traces["release"]), 2)
     ck.ob("R4.release-wakes-head", fn_construct(rel), not bad, (bad[0][0] + ": " + sig(bad[0][1])) if bad else "")
 
+    # ---- no user code under the internal mutex (h3_C19 #1) -------------------------------------------
+    # OrderedLockError(msg, source_exception) formats the stored exception: str() / truth value of a USER object, which may consult this very lock
+    # (an error message that reports lock.is_broken(), a repr that reads state under the lock). Built while the non-reentrant internal mutex is held,
+    # the thread deadlocks on itself and every later caller of the lock hangs behind it - "future acquirers get an error instead of blocking".
+    exc_attrs = {"_exception", "exc_val", "exc_type", "source_exception"}
+    n_regions = 0
+    under = []
+    for mname, m in ol.methods.items():
+        for w in [x for x in ast.walk(m.node) if isinstance(x, ast.With) and any("self._lock" == ast.unparse(i.context_expr) for i in x.items)]:
+            n_regions += 1
+            for c in [x for b in w.body for x in ast.walk(b)]:
+                touches_user_obj = lambda e: any((isinstance(a, ast.Attribute) and a.attr in exc_attrs) or (isinstance(a, ast.Name) and a.id in exc_attrs) for a in ast.walk(e))
+                if isinstance(c, ast.Call) and ((isinstance(c.func, ast.Name) and c.func.id in ("str", "repr", "format", "bool", "len")) or
+                                                (isinstance(c.func, ast.Name) and c.func.id.endswith("Error"))) and any(touches_user_obj(a) for a in list(c.args) + [k.value for k in c.keywords]):
+                    under.append(f"{mname} line {c.lineno}: `{ast.unparse(c)[:70]}`")
+                if isinstance(c, ast.JoinedStr) and touches_user_obj(c):
+                    under.append(f"{mname} line {c.lineno}: f-string over the stored exception")
+    ck.floor("mutex_regions", n_regions, 4)
+    ck.ob("R1.no-user-code-under-the-mutex", "threading.py:OrderedLock", not under,
+          "; ".join(under[:2]) + ": the stored exception is formatted (its __str__ / __bool__ / __len__ run) while the internal non-reentrant mutex is held - an exception "
+          "whose text consults the lock deadlocks the acquirer and wedges the lock for every thread" if under else f"{n_regions} regions")
+
     # ---- __exit__ -----------------------------------------------------------------------------------
     # judged on two scenarios with the arguments the interpreter protocol really passes - (None, None, None) after a normal body, and
     # (type, instance, traceback) of SOME BaseException after a body that raised. (An earlier version read "exceptional" off the path condition
